@@ -69,6 +69,9 @@ func ParseSecrets(secrets []*big.Int) ([][]*big.Int, error) {
 			return nil, errors.New("ParseSecrets: `el` overflow")
 		}
 		if isLenEl {
+			if !secrets[el].IsInt64() || secrets[el].Sign() < 0 {
+				return nil, fmt.Errorf("ParseSecrets: invalid commitment part length: part %d", len(parts))
+			}
 			nextPartLen = secrets[el].Int64()
 			if MaxPartSize < nextPartLen {
 				return nil, fmt.Errorf("ParseSecrets: commitment part too large: part %d, size %d", len(parts), nextPartLen)
